@@ -35,6 +35,8 @@ func Main(args []string) int {
 		return 0
 	case "check":
 		return CheckMain(args[1:])
+	case "mutants":
+		return MutantsMain(args[1:])
 	case "explain":
 		return ExplainMain(args[1:])
 	case "list":
